@@ -72,12 +72,25 @@ def gen_tasks(rng):
     tasks = []
     k = 0
     while len(tasks) < n_target:
-        if rng.random() < 0.25:
+        r = rng.random()
+        if r < 0.25:
             g = len(tasks)
             lab = 'g%d' % k
             tasks.append({'label': lab, 'subtask_of': None})
-            for j in range(rng.randint(1, 3)):
-                tasks.append({'label': '%s:%s%d' % (lab, rng.choice(['s', 's', 'x']), j), 'subtask_of': g})
+            if rng.random() < 0.2:
+                # sub-task names that contain fnmatch metacharacters, next to the name they would match as a pattern
+                subnames = rng.choice([['s[0]', 's0'], ['s0', 's[0]'], ['p?', 'px'], ['s[0]']])
+            else:
+                subnames = ['%s%d' % (rng.choice(['s', 's', 'x']), j) for j in range(rng.randint(1, 3))]
+            for sn in subnames:
+                tasks.append({'label': '%s:%s' % (lab, sn), 'subtask_of': g})
+        elif r < 0.37:
+            # a literal task name with `[`, `]` or `?` and (usually) the task it would select if read as a pattern
+            magic, twin = rng.choice([('p%d[1]', 'p%d1'), ('q%d?', 'q%dx'), ('r%d[ab]', 'r%da'), ('v%d[!x]', 'v%dy')])
+            pair = [magic % k] + ([twin % k] if rng.random() < 0.85 else [])
+            rng.shuffle(pair)
+            for lab in pair:
+                tasks.append({'label': lab, 'subtask_of': None})
         else:
             tasks.append({'label': '%s%d' % (rng.choice(['t', 't', 'u', 'tt', 'x']), k), 'subtask_of': None})
         k += 1
@@ -139,7 +152,13 @@ def gen_targets(rng, tasks):
                     eff = ['rm', rng.choice(['junk%d' % i, 'o%d/f' % i, 'top%d' % i, 'o%d/extra' % i, 'shared/p%d' % i])]
                 elif r < 0.5:
                     eff = ['mk', 'new%d_%d' % (i, k)]
-                acts.append({'type': rng.choice(['aware', 'plain', 'cmd']), 'eff': eff})
+                typ = rng.choice(['aware', 'plain', 'cmd'])
+                form = 'def'
+                if typ == 'plain' and rng.random() < 0.6:
+                    form = rng.choice(cleanlib.PLAIN_FORMS)
+                elif typ == 'aware' and rng.random() < 0.5:
+                    form = rng.choice(cleanlib.AWARE_FORMS)
+                acts.append({'type': typ, 'eff': eff, 'form': form})
             t['actions'] = acts
         if rng.random() < (0.92 if t['kind'] == 'targets' else 0.15):
             pool = ['o%d' % i, 'o%d/f' % i, 'o%d/g.txt' % i, 'o%d/sub' % i, 'o%d/sub/h' % i, 'top%d' % i,
@@ -178,6 +197,13 @@ PATTERNS = ['*', 'g*', 't*', '*:s0', '*:*', 'g1:*', '*1', 'u*', '*x*', 'g?*']
 
 def gen_args(rng, tasks):
     labels = [t['label'] for t in tasks]
+    magic = [l for l in labels if any(c in l for c in '[]?')]
+    if magic and rng.random() < 0.5:
+        # name the task with metacharacters literally (command line or default_tasks)
+        pick = [rng.choice(magic)] + ([rng.choice(labels)] if rng.random() < 0.3 else [])
+        if rng.random() < 0.7:
+            return pick, (None if rng.random() < 0.7 else [rng.choice(labels)]), 'magic-name'
+        return [], pick, 'magic-default'
     r = rng.random()
     if r < 0.25:
         pos, mode = [], 'none'
@@ -330,6 +356,10 @@ def shrink_candidates(case):
                 del c['tasks'][i]['actions'][j]
                 yield c
         for j, a in enumerate(acts):
+            if a.get('form', 'def') != 'def':
+                c = json.loads(json.dumps(case))
+                c['tasks'][i]['actions'][j]['form'] = 'def'
+                yield c
             if a.get('eff'):
                 c = json.loads(json.dumps(case))
                 c['tasks'][i]['actions'][j]['eff'] = None
@@ -392,7 +422,8 @@ def describe(case):
         if t['setup']:
             s += ' setup=' + ','.join(case['tasks'][d]['label'] for d in t['setup'])
         if t['kind'] == 'actions':
-            s += ' clean=[' + ', '.join(a['type'] + (':%s %s' % tuple(a['eff']) if a.get('eff') else '')
+            s += ' clean=[' + ', '.join(a['type'] + ('(%s)' % a['form'] if a.get('form', 'def') != 'def' else '')
+                                        + (':%s %s' % tuple(a['eff']) if a.get('eff') else '')
                                         for a in t.get('actions', [])) + ']'
         else:
             s += ' clean=' + {'act': '[plain]', 'actdry': '[aware]'}.get(t['kind'], t['kind'])
@@ -422,6 +453,8 @@ def process_batch(batch):
         n_edges = sum(len(cleanlib.deps_of(t)) for t in tasks)
         st.count('edges:%s' % ('0' if n_edges == 0 else '1-3' if n_edges <= 3 else '4-8' if n_edges <= 8 else '9+'))
         st.count('sel:%s' % case.get('sel_mode', 'corpus'))
+        if any(c in t['label'] for t in tasks for c in '[]?'):
+            st.count('has-name-with-metachars')
         st.count('defaults:%s' % ('none' if case.get('defaults') is None else 'empty' if not case['defaults'] else 'some'))
         for f in ('cleandep', 'cleanall', 'dryrun', 'forget'):
             if case.get(f):
@@ -441,6 +474,9 @@ def process_batch(batch):
             acts = t.get('actions', []) if t['kind'] == 'actions' else []
             if acts:
                 st.count('clean-list-len:%d' % len(acts))
+                for a in acts:
+                    if a['type'] != 'cmd':
+                        st.count('py-action:%s/%s' % (a['type'], a.get('form', 'def')))
                 types = [a['type'] for a in acts]
                 if 'aware' in types and any(x != 'aware' for x in types[types.index('aware') + 1:]):
                     st.count('clean-list:aware-before-non-aware')
